@@ -417,6 +417,7 @@ const c8RespBase = 5_000_000
 const c8BadBase = 6_000_000
 const c8IDBase = 7_000_000
 const c8OwnBase = 8_000_000
+const c8APIBase = 9_000_000
 
 type c8Run struct {
 	out   *vOut
@@ -813,6 +814,27 @@ func (h *c8Run) runRandom(r *c8Root, x any, rnd *rand.Rand) {
 	if len(doc) > 4096 {
 		doc = doc[:4096]
 	}
+	h.fuzzDoc(r, doc)
+	// tree-level mutation of the marshaler's own document: always well-formed JSON, so the model is always consulted
+	if base != nil {
+		if d2 := c8MutateJSONTree(rnd, base); d2 != nil {
+			h.stat("fuzz.json.tree")
+			h.fuzzDoc(r, d2)
+		}
+	}
+}
+
+// fuzzDoc offers a free-form JSON document to the real unmarshaler. Whenever the document is well-formed JSON (encoding/json
+// parses it completely, valid UTF-8, no surrogate escapes — the cases in which the tree the model works on is unambiguous) it is
+// ALSO given to the model (`op jdec`): error-vs-value and the decoded value are diffed exactly. Otherwise (`op fuzz`) only the
+// direct oracles apply (no panic, no hang, fixed point).
+func (h *c8Run) fuzzDoc(r *c8Root, doc []byte) {
+	lower := bytes.ToLower(doc)
+	if plain, _, err := c8DocJ(doc); err == nil && !bytes.Contains(lower, []byte(`\ud`)) {
+		h.stat("fuzz.json.modelled")
+		h.opJdec(r, doc, plain, c8DocPF(doc))
+		return
+	}
 	h.out.Linef("op fuzz %s json %s", r.name, c8Hex(doc))
 	res := h.jdec(r, doc)
 	if res.err == nil {
@@ -1175,6 +1197,52 @@ func (h *c8Run) generated(c int) {
 	}
 }
 
+// apiBlock: `per` random API programs per signal.
+func (h *c8Run) apiBlock(replay, per int) {
+	idx := c8APIBase
+	for _, sig := range c8Signals {
+		r := h.roots[sig]
+		for k := 0; k < per; k++ {
+			c := idx
+			idx++
+			if replay >= 0 && replay != c {
+				continue
+			}
+			rnd := vRand(c)
+			a := &c8API{r: rnd, g: c8NewGen(rnd, false), budget: 40 + rnd.IntN(160)}
+			var x any
+			switch sig {
+			case "logs":
+				w := plog.NewLogs()
+				a.drive(reflect.ValueOf(w), 0)
+				pb := internal.LogsToProto(internal.Logs(w))
+				x = &pb
+			case "metrics":
+				w := pmetric.NewMetrics()
+				a.drive(reflect.ValueOf(w), 0)
+				pb := internal.MetricsToProto(internal.Metrics(w))
+				x = &pb
+			case "traces":
+				w := ptrace.NewTraces()
+				a.drive(reflect.ValueOf(w), 0)
+				pb := internal.TracesToProto(internal.Traces(w))
+				x = &pb
+			default:
+				w := pprofile.NewProfiles()
+				a.drive(reflect.ValueOf(w), 0)
+				pb := internal.ProfilesToProto(internal.Profiles(w))
+				x = &pb
+			}
+			h.begin(c, "value", r.name)
+			h.stat("api.program")
+			h.stats["api.calls"] += a.calls
+			h.stats["api.panics"] += a.panics
+			h.runValue(r, x)
+			h.end(a.calls > 3)
+		}
+	}
+}
+
 // ownBlock: for every root and both codecs, `seqReps` sequential cases (marshal A, keep the bytes, marshal B and C, compare the
 // KEPT bytes with the snapshot taken right after the first call and decode them) and `concReps` concurrent cases (`gor`
 // goroutines, each keeps its first result while it and the others marshal `iters` more payloads).
@@ -1425,8 +1493,13 @@ func TestVerifC08Codec(t *testing.T) {
 	}
 	// ownership of the marshalers' output: the bytes returned for A must not change when B, C, … are marshalled later
 	// (sequentially, and by other goroutines) — every marshaler, proto and JSON, all roots.
-	if replay < 0 || (replay >= c8OwnBase && replay < c8ExhBase) {
+	if replay < 0 || (replay >= c8OwnBase && replay < c8APIBase) {
 		h.ownBlock(replay, c8OwnBase, 2, 1, 8, 10)
+	}
+	// payloads built through the PUBLIC pdata API by random programs (Set*/Put*/SetEmpty*/AppendEmpty/FromRaw only): the driver
+	// checks `prop apibuilt` (ApiBuilt ∧ jcov) on every canonical one — ties the model of the API surface to the real setters.
+	if replay < 0 || (replay >= c8APIBase && replay < c8ExhBase) {
+		h.apiBlock(replay, 40)
 	}
 	if (vThorough() && replay < 0) || replay >= c8ExhBase {
 		idx := c8ExhBase
